@@ -144,6 +144,12 @@ func MatchCall(c Call, names ...string) bool {
 func Strip(v ssa.Value) ssa.Value {
 	for i := 0; i < 20; i++ {
 		switch x := v.(type) {
+		case *ssa.UnOp:
+			if p := Unbox(x); p != ssa.Value(x) {
+				v = p
+				continue
+			}
+			return v
 		case *ssa.ChangeInterface:
 			v = x.X
 		case *ssa.MakeInterface:
@@ -187,6 +193,9 @@ func AddrKey(v ssa.Value) string {
 		return AddrKey(x.X) + "." + st.Field(x.Field).Name()
 	case *ssa.UnOp:
 		if x.Op == token.MUL {
+			if p := Unbox(x); p != x {
+				return AddrKey(p)
+			}
 			// load: a loaded struct pointer field names the pointee
 			return AddrKey(x.X) + "^"
 		}
@@ -621,4 +630,41 @@ func CountOnPathsTo(fn *ssa.Function, from ssa.Instruction, pred Pred, goal func
 		return 0, 0
 	}
 	return min, max
+}
+
+// Unbox: a load of a local cell that holds a captured parameter (go/ssa boxes
+// parameters captured by closures: t0 = new T (p); *t0 = p; … *t0) is the
+// parameter itself; inside the closure a load of the free variable cell
+// resolves to the same parameter.
+func Unbox(v ssa.Value) ssa.Value {
+	u, ok := v.(*ssa.UnOp)
+	if !ok || u.Op != token.MUL {
+		return v
+	}
+	var cell *ssa.Alloc
+	switch x := u.X.(type) {
+	case *ssa.Alloc:
+		cell = x
+	case *ssa.FreeVar:
+		if b, ok := FreeVarBinding(x).(*ssa.Alloc); ok {
+			cell = b
+		}
+	}
+	if cell == nil || cell.Referrers() == nil {
+		return v
+	}
+	var stored ssa.Value
+	n := 0
+	for _, r := range *cell.Referrers() {
+		if st, ok := r.(*ssa.Store); ok && st.Addr == cell {
+			n++
+			stored = st.Val
+		}
+	}
+	if n == 1 {
+		if p, ok := stored.(*ssa.Parameter); ok {
+			return p
+		}
+	}
+	return v
 }
